@@ -3,6 +3,7 @@ evaluation (C08), noexcept table (C18), conversion grid / archetypes / twin comp
 exhaustive small grids (C12, C16)."""
 import hashlib
 import os
+import re
 import subprocess
 import sys
 import time
@@ -211,16 +212,23 @@ def _aux_build_run(name, std, cxx="g++", extra=("-O1", "-fsanitize=address", "-D
             return False, p.stdout, None, ""
         os.replace("%s.tmp.%d" % (exe, os.getpid()), exe)
     rc, out, err = D.run_proc([exe] + [str(a) for a in args], timeout=1800)
+    if rc != 0:  # keep the sanitizer's headline (stderr) with the output
+        out += "".join("\n" + l for l in err.splitlines()
+                       if "ERROR: AddressSanitizer" in l or "runtime error:" in l or l.startswith("SUMMARY:"))[:2000]
     return True, "", rc, out
 
 
-def _write_aux_replay(prop, name, std, cxx, oracle, line, detail):
+def _write_aux_replay(prop, name, std, cxx, oracle, line, detail, summary_prefix="", args=()):
     os.makedirs(os.path.join(D.OUT, "replays"), exist_ok=True)
     tag = hashlib.sha256(line.encode()).hexdigest()[:10]
     path = os.path.join(D.OUT, "replays", "%s-%s-%s.replay" % (prop, name, tag))
     with open(path, "w") as f:
         f.write("svsim-replay 1\nproperty %s\nflavour special:aux\nprogram %s\nstd %s\ncompiler %s\n"
                 "expect %s\nline %s\n" % (prop, name, std, cxx, oracle, line))
+        if summary_prefix:  # a crash is reproduced when the program again ends without this line
+            f.write("summary %s\n" % summary_prefix)
+        if args:
+            f.write("args %s\n" % " ".join(str(a) for a in args))
         f.write("detail " + detail.replace("\n", "\ndetail ") + "\n")
     return path
 
@@ -257,12 +265,15 @@ def run_aux(prop, name, stds, fail_prefix, oracle_fail, oracle_compile, summary_
                 if not nums:
                     nums = [int(t) for t in summ[0].split() if t.isdigit()]
                 total_cases += nums[0] if nums else 0
-            elif rc not in (0, 1):
-                line = "%s crashed (rc=%s) as C++%s with %s" % (name, rc, std, cxx)
-                path = _write_aux_replay(prop, name, std, cxx, oracle_fail, line, out[-2000:])
+            else:
+                # no summary line: the program did not run to its end (sanitizer abort exits with 1)
+                first = next((l for l in out.splitlines() if "ERROR: AddressSanitizer" in l or "runtime error" in l), "")
+                m = re.search(r"AddressSanitizer: ([A-Za-z-]+)|runtime error: ([^\n]{0,80})", first)
+                line = "%s crashed (rc=%s) as C++%s with %s%s" % (name, rc, std, cxx, (": " + (m.group(1) or m.group(2))) if m else "")
+                path = _write_aux_replay(prop, name, std, cxx, oracle_fail, line, out[-2000:], summary_prefix, args)
                 violations.append((None, _special_violation(prop, oracle_fail, name, line, path)))
             for l in fails[:3]:
-                path = _write_aux_replay(prop, name, std, cxx, oracle_fail, l, "C++%s %s" % (std, cxx))
+                path = _write_aux_replay(prop, name, std, cxx, oracle_fail, l, "C++%s %s" % (std, cxx), args=args)
                 violations.append((None, _special_violation(prop, oracle_fail, l.split()[1] if len(l.split()) > 1 else name,
                                                             l + " (C++%s, %s)" % (std, cxx), path)))
             runs.append(dict(program=name, std=std, compiler=cxx, failures=len(fails),
@@ -275,9 +286,9 @@ def replay_aux(prop, path):
     with open(path) as f:
         for line in f:
             k, _, v = line.rstrip("\n").partition(" ")
-            if k in ("program", "std", "compiler", "expect", "line"):
+            if k in ("program", "std", "compiler", "expect", "line", "summary", "args"):
                 d[k] = v
-    ok, cout, rc, out = _aux_build_run(d["program"], d["std"], d["compiler"])
+    ok, cout, rc, out = _aux_build_run(d["program"], d["std"], d["compiler"], args=tuple(d.get("args", "").split()))
     if not ok:
         print(_first_errors(cout, 12))
         if d["expect"].endswith(".compile"):
@@ -287,6 +298,13 @@ def replay_aux(prop, path):
         return 2
     if d["expect"].endswith(".compile"):
         print("[replay] %s compiles now" % d["program"])
+        return 0
+    if d.get("summary") and " crashed (rc=" in d["line"]:
+        if not any(l.startswith(d["summary"]) for l in out.splitlines()):
+            print("%s again ended without its summary line (rc=%s)" % (d["program"], rc))
+            print("VIOLATION property=%s replay=%s" % (prop, path))
+            return 1
+        print("[replay] %s runs to its end now" % d["program"])
         return 0
     if d["line"] in out.splitlines():
         print(d["line"])
